@@ -148,13 +148,17 @@ func checkC33(r *Run) {
 			}
 			_, m := matchAny([]string{"i != 0", "0 < *", "* != 0"}, fs)
 			r.Check("C33-R2", "after progress, the next blocks above the new head are requested", r.P.Pos(cs.Pos()), m, "GetBlocks broadcast: "+trunc(t, 120))
-			r.Check("C33-R2", "the request starts at the re-read head sequence", r.P.Pos(cs.Pos()), strings.HasPrefix(t, "daemon.NewGetBlocksMessage(iface:daemon.daemoner.headBkSeq($1)#0"), t)
+			r.Check("C33-R2", "the request starts at the head sequence re-read after executing the blocks (second headBkSeq call)", r.P.Pos(cs.Pos()), strings.HasPrefix(t, "daemon.NewGetBlocksMessage(iface:daemon.daemoner.headBkSeq@2($1)#0"), t)
 		}
 	}
 	if !found {
 		r.Fail("C33-R2", "after progress, the next blocks above the new head are requested", r.P.Pos(fn.Pos()), "no GetBlocksMessage broadcast in GiveBlocksMessage.process")
 	}
-	// every path that executed at least one block reaches that broadcast (or the announce) — post-dominance
+	// every path that executed at least one block reaches that broadcast — post-dominance
+	r.RequireFollows("C33-R2", "daemon.GiveBlocksMessage.process", "iface:daemon.daemoner.executeSignedBlock", "iface:daemon.daemoner.broadcastMessage", "daemon.NewGetBlocksMessage(", "once a block was executed, every exit re-requests blocks above the new head",
+		// documented early exits: the head cannot be re-read; and the "nothing processed" exit
+		// (infeasible after an increment, but path-insensitive here: allowed by table)
+		"err(iface:daemon.daemoner.headBkSeq@2($1))", "!iface:daemon.daemoner.headBkSeq@2($1)#1", "fold[acc=0; (acc + 1)] == 0")
 	r.RequireAtCall("C33-R2", "daemon.AnnounceBlocksMessage.process", "iface:daemon.daemoner.sendMessage", 1,
 		req("peer announces a higher block than our head", "iface:daemon.daemoner.headBkSeq($1)#0 < $0.MaxBkSeq"))
 	r.RequireOnSuccess("C33-R3", "visor.Blockchain.verifyBlockHeader",
